@@ -1,6 +1,6 @@
 SPECIFICATION GenSpec
 CONSTANTS
-  MaxPeer = 6
+  MaxPeer = 5
   MaxLocal = 5
   MaxObj = 3
   Configs <- HoldConfigs
